@@ -23,6 +23,9 @@ def run(ctx):
     nested_render_part(ctx)
     for f in ctx.known():
         ctx.witness(f)
+    # what one template leaves behind (rejected templates, templates with options of their own) does not reach another
+    from .. import isolation
+    ctx.replays += isolation.run(ctx, "repeat")
     ctx.exhaustive = True
     ctx.rule = ("every length 0..40 (thorough 0..119) x every position x 12 repeat variables; lengths crossing the "
                 "letter (26, 702) and roman (3999) boundaries; iterable kinds list/generator/dict/str/bytes/range/None and "
